@@ -76,7 +76,8 @@ def baseline_keys(ctx):
 
 def _variant(args):
     """one variant in its own scratch copy (also the body of a worker process): apply, extract, run the quick rules, compare"""
-    pid, name, path, expect, note, repo, base = args
+    pid, name, path, expect, note, repo, base = args[:7]
+    synthetic = len(args) > 7 and args[7]
     base = set(map(tuple, base))
     mod = importlib.import_module('sa.props.' + pid)
     d = tempfile.mkdtemp(prefix='gdstk-selftest.')
@@ -98,6 +99,8 @@ def _variant(args):
             if broken and not new:
                 rep = [{'analysis_broken': str(broken[:2])}]
         except facts.AnalysisBroken as e:
+            if synthetic and 'extractor failed' in str(e):
+                return None             # the rewrite does not compile in some configuration: not a variant
             fired = True
             rep = [{'analysis_broken': str(e)[:300]}]
         except Exception as e:          # noqa: BLE001  (a rule raising on a changed tree: reported, never a crash of the whole check)
@@ -149,6 +152,7 @@ def gm_control(pid, ctx, n=24, repo=None):
         return results
     work = tempfile.mkdtemp(prefix='gdstk-gm.')
     try:
+        todo = []
         for i, site in enumerate(sites):
             try:
                 pd = gmctl.make_patch(site, repo, work, i)
@@ -156,34 +160,19 @@ def gm_control(pid, ctx, n=24, repo=None):
                 pd = None
             if pd is None:
                 continue
-            d = tempfile.mkdtemp(prefix='gdstk-selftest.')
-            try:
-                for sub in ('src', 'include', 'external'):
-                    shutil.copytree(os.path.join(repo, sub), os.path.join(d, sub), symlinks=True)
-                p = subprocess.run(['patch', '-p1', '-s', '-f', '--no-backup-if-mismatch', '-i', os.path.join(pd, 'patch.diff')], cwd=d, stdout=subprocess.PIPE, stderr=subprocess.STDOUT, text=True)
-                if p.returncode != 0:
-                    continue
-                name = 'gm/%s:%s@%s:%s' % (site['kind'], site['func'].replace('gdstk::', ''), os.path.basename(site['file']), site['line'])
-                try:
-                    with _deadline(240):
-                        db2 = facts.load(d)
-                        c2 = core.Ctx(pid, 'quick', db2, scratch=True)
-                        mod.run(c2)
-                    new = [o for o in c2.obs if o.status == 'violation' and (o.rule, o.key) not in base]
-                    broken = [m for m in c2.mins if m[1] < m[2]] + [c for c in c2.controls if not c[1]] + list(c2.broken)
-                    fired = bool(new) or bool(broken)
-                    rep = [{'rule': o.rule, 'instance': o.key, 'loc': o.loc, 'what': o.what[:200]} for o in new[:3]] or ([{'analysis_broken': str(broken[:2])}] if broken else [])
-                except facts.AnalysisBroken as e:
-                    if 'extractor failed' in str(e):
-                        continue            # the rewrite does not compile in some configuration: not a variant
-                    fired = True
-                    rep = [{'analysis_broken': str(e)[:300]}]
-                except Exception as e:      # noqa: BLE001  (a rule that raises on a rewritten tree is reported like an alarm, advisory)
-                    fired = True
-                    rep = [{'analysis_broken': 'internal: %s: %s' % (type(e).__name__, str(e)[:200])}]
-                results.append({'patch': name, 'status': 'caught' if fired else 'missed', 'expect': 'silent', 'reports': rep, 'note': 'synthetic behaviour-preserving rewrite'})
-            finally:
-                shutil.rmtree(d, ignore_errors=True)
+            name = 'gm/%s:%s@%s:%s' % (site['kind'], site['func'].replace('gdstk::', ''), os.path.basename(site['file']), site['line'])
+            todo.append((pid, name, os.path.join(pd, 'patch.diff'), 'silent', 'synthetic behaviour-preserving rewrite', repo, sorted(base), True))
+        try:
+            n_ = jobs()
+            if n_ <= 1 or len(todo) < 2:
+                out = [_variant(w) for w in todo]
+            else:
+                import multiprocessing
+                with multiprocessing.get_context('fork').Pool(n_) as pool:
+                    out = pool.map(_variant, todo, chunksize=1)
+            results = [r for r in out if r is not None and r.get('status') != 'skipped']
+        except Exception as e:              # noqa: BLE001  (advisory control: never changes the verdict)
+            ctx.extra['robustness_control_error'] = '%s: %s' % (type(e).__name__, str(e)[:300])
     finally:
         shutil.rmtree(work, ignore_errors=True)
     return results
